@@ -23,7 +23,7 @@ ASSUMPTIONS = [
     "raw records are printable Latin-1 strings without control characters (a record never contains a line break)",
     "names that contain '.gwl' without ending in it are not generated (undetermined)",
 ]
-BUDGET = {"quick": (4, 300), "thorough": (16, 3000)}
+BUDGET = {"quick": (4, 600), "thorough": (16, 3000)}
 KNOWN_KINDS = {}
 STRATA = ["save", "save-twice", "with", "with-exc", "with-prefilled", "bad-name"]
 REQUIRED_CLASSES = ["mode:save", "mode:save-twice", "mode:with", "mode:with-exc", "mode:with-prefilled", "mode:bad-name", "pre:longer", "pre:shorter", "pre:absent", "non-ascii", "empty-worklist", "path:Path", "path:str"]
